@@ -1,15 +1,21 @@
 (** C13 — the connection pool picks a healthy, current server and its waits
-    never hang.  Statements only.
+    never hang.  Statements only; the model is the model of the REPAIRED code
+    (four repairs in liteapi/pool, see Proofs/PoolHistory.v for the defective
+    versions and their witnesses).
 
-    Status on today's code (see the comments at each theorem):
-      selection rule ......... proved for all pools except the class "an alive
-                               connection whose head is 2^32-1" (REFUTED there, F15)
-      waiter contract ........ proved (success iff a sufficient head of the best
-                               connection was received; timeout always enabled)
-      pool never blocks ...... REFUTED: three reachable permanent deadlocks (F14 and
-                               two involving the connection lock and the 10-slot
-                               update buffer); proved: there is no other way for the
-                               holder of the pool lock to be unable to move. *)
+      selection rule ......... for every pool, both strategies, every previous choice
+      waiter contract ........ success iff a sufficient head of the best connection
+                               was received; a sufficient head sent to a waiting
+                               caller is never lost; every notification reaches every
+                               registered waiter; timeout / cancel always enabled;
+                               a caller that left its loop returns
+      pool never blocks ...... in every reachable state the holder of the pool lock
+                               has an enabled step and frees the lock by its own
+                               moves; Run always gets back to its select; a
+                               SetMasterHead waiting for buffer space completes
+
+    All theorems quantify over any number of connections, waiters and head updates
+    and over all interleavings (the LTS of Model/PoolWait.v). *)
 From Coq Require Import List NArith ZArith Bool.
 From Tongo Require Import Model.Pool Model.PoolWait Proofs.PoolP
   Proofs.PoolWaitP Proofs.PoolWaitMsgP Proofs.PoolWaitW.
@@ -17,200 +23,212 @@ Import ListNotations.
 
 (** ---- selection rule (any number of connections) ---- *)
 
-(** The literal code, with its own notion of "current" ([seqno+1 >= max] in uint32):
-    the result is a usable connection of minimal round-trip time and first among
-    equals (best-ping) / the first usable one (first-working); the previous choice
-    if there is none, if the pool is empty, or if the strategy is unknown. *)
-Theorem C13_update_best_literal :
-  forall st cs prev,
-    is_choice st (fun c => usable_go (max_seqno cs) c = true) cs prev (update_best st cs prev).
-Proof. exact update_best_literal. Qed.
-Print Assumptions C13_update_best_literal.
+(** Among the connections that are alive and at most one block behind the newest
+    head known to the pool ([eligible]) the result is the one of minimal round-trip
+    time, first among equals (best-ping) / the first one in configuration order
+    (first-working); if there is none — or the pool is empty, or the strategy is
+    unknown — the previous choice is kept. *)
+Theorem C13_update_best_spec :
+  forall st cs prev, is_choice st (eligible cs) cs prev (update_best st cs prev).
+Proof. exact update_best_spec. Qed.
+Print Assumptions C13_update_best_spec.
 
-(** The property's clause, with "current" = at most one block behind the newest
-    head known to the pool.  PARTIAL: holds for every pool in which no alive
-    connection has head seqno 2^32-1; missing: exactly that class (next lemma). *)
-Theorem C13_update_best_spec_partial :
-  forall st cs prev,
-    no_alive_at_wrap cs ->
-    is_choice st (eligible cs) cs prev (update_best st cs prev).
-Proof. exact update_best_spec_partial. Qed.
-Print Assumptions C13_update_best_spec_partial.
+(** the two halves read out *)
+Theorem C13_update_best_picks_eligible :
+  forall st cs prev c, st <> OtherStrategy -> In c cs -> eligible cs c ->
+    exists i d, update_best st cs prev = Some i /\ nth_error cs i = Some d /\ eligible cs d.
+Proof. exact update_best_picks_eligible. Qed.
 
-(** F15: the clause is false without the guard — the only connection is alive,
-    its head 2^32-1 is the newest head, and it is not selected. *)
-Theorem C13_update_best_spec_refuted :
-  exists st cs prev, ~ is_choice st (eligible cs) cs prev (update_best st cs prev).
-Proof. exact update_best_spec_refuted. Qed.
+Theorem C13_update_best_keeps_prev :
+  forall st cs prev, (forall c, In c cs -> ~ eligible cs c) -> update_best st cs prev = prev.
+Proof. exact update_best_keeps_prev. Qed.
 
-(** the guard excludes exactly the defective class: literal and intended
-    eligibility differ on a connection iff it is alive with head 2^32-1 *)
-Theorem C13_wrap_is_only_gap :
-  forall cs c, In c cs ->
-    (eligible cs c <->
-     usable_go (max_seqno cs) c = true \/ (c_alive c = true /\ seq32 c = wrap_seqno)).
-Proof. exact wrap_is_only_gap. Qed.
+(** the code's test is the property's notion of "current", with no overflow *)
+Theorem C13_usable_iff_eligible :
+  forall cs c, usable_go (max_seqno cs) c = true <-> eligible cs c.
+Proof. exact usable_iff_eligible. Qed.
 
 (** ---- waiter contract (any number of waiters and connections, all interleavings) ---- *)
 
 (** A waiter has left its loop with nil / returned nil only if it received a head
     at or beyond its target, and that head (c,h) was published for the connection
-    that was bestConn at that moment ([log], characterised by the next theorem),
+    that was bestConn at that moment ([log], characterised by C13_log_from_best),
     a head connection c had really reached. *)
 Theorem C13_wait_success :
-  forall nconns tgt heads b s w,
-    reachable nconns tgt (init_state heads b) s ->
+  forall strat nconns tgt heads b s w,
+    reachable strat nconns tgt (init_state heads b) s ->
     (wpc s w = WUnsub ROk \/ wpc s w = WDone ROk) ->
     exists c h, wgot s w = Some (c, h) /\ (tgt w <= h)%N /\ In (c, h) (log s) /\ (h <= head s c)%N.
 Proof. exact wait_success. Qed.
 Print Assumptions C13_wait_success.
 
 Theorem C13_wait_success_iff :
-  forall nconns tgt heads b s w,
-    reachable nconns tgt (init_state heads b) s ->
+  forall strat nconns tgt heads b s w,
+    reachable strat nconns tgt (init_state heads b) s ->
     ((wpc s w = WUnsub ROk \/ wpc s w = WDone ROk) <->
      exists m, wgot s w = Some m /\ (tgt w <= snd m)%N).
 Proof. exact wait_success_iff. Qed.
 
 Theorem C13_log_from_best :
-  forall nconns tgt s l s',
-    step nconns tgt s l = Some s' ->
+  forall strat nconns tgt s l s',
+    step strat nconns tgt s l = Some s' ->
     log s' = log s \/
     exists c h, log s' = log s ++ [(c, h)] /\ best s = Some c /\
       ((exists w, l = LSubBody w /\ h = head s c) \/
        (exists o, l = LRLock o /\ rpc s = RWantR (c, h))).
 Proof. exact log_from_best. Qed.
 
+(** ... immediately at subscribe if the best connection is already there *)
+Theorem C13_wait_immediate :
+  forall strat nconns tgt s w b,
+    wpc s w = WSubL -> writer s = Some (AW w) -> best s = Some b -> (tgt w <= head s b)%N ->
+    exists s1 s2, step strat nconns tgt s (LSubBody w) = Some s1 /\
+                  step strat nconns tgt s1 (LRecv w) = Some s2 /\ wpc s2 w = WUnsub ROk /\
+                  writer s1 = None /\ wl s1 = wl s.
+Proof. exact wait_immediate. Qed.
+
+(** completeness: once a head at or beyond the target has been sent to a caller that
+    is still in its loop, a sufficient head IS in its channel and its receive step
+    returns success (the non-blocking notification replaces a pending head only by
+    one with a larger seqno) *)
+Theorem C13_wait_not_missed :
+  forall strat nconns tgt heads b s w m,
+    reachable strat nconns tgt (init_state heads b) s ->
+    wpc s w = WWait -> In m (woff s w) -> (tgt w <= snd m)%N ->
+    exists m' s', wch s w = Some m' /\ (tgt w <= snd m')%N /\
+                  step strat nconns tgt s (LRecv w) = Some s' /\ wpc s' w = WUnsub ROk.
+Proof. exact wait_not_missed. Qed.
+Print Assumptions C13_wait_not_missed.
+
+(** ... and a head of the best connection that Run has finished notifying has been
+    sent to every waiter registered at that moment *)
+Theorem C13_notify_reaches_all :
+  forall strat nconns tgt heads b s u,
+    reachable strat nconns tgt (init_state heads b) s -> rpc s = RNotify u true [] ->
+    forall id w, In (id, w) (wl s) -> In u (woff s w).
+Proof. exact notify_reaches_all. Qed.
+
 (** the timeout / cancel branch of a waiting caller is always enabled; the
     success branch is taken as soon as a sufficient head is in its channel; an
     error result comes from the timeout / cancel branch only *)
 Theorem C13_wait_leave_enabled :
-  forall nconns tgt s w r,
+  forall strat nconns tgt s w r,
     wpc s w = WWait -> r <> ROk ->
-    exists s', step nconns tgt s (LLeave w r) = Some s' /\ wpc s' w = WUnsub r.
+    exists s', step strat nconns tgt s (LLeave w r) = Some s' /\ wpc s' w = WUnsub r.
 Proof. exact wait_leave_enabled. Qed.
 
-Theorem C13_wait_recv_enabled :
-  forall nconns tgt s w m,
-    wpc s w = WWait -> wch s w = Some m ->
-    exists s', step nconns tgt s (LRecv w) = Some s' /\
-      wpc s' w = (if (tgt w <=? snd m)%N then WUnsub ROk else WWait) /\ wch s' w = None.
-Proof. exact wait_recv_enabled. Qed.
-
 Theorem C13_wait_error :
-  forall nconns tgt s l s' w r,
-    step nconns tgt s l = Some s' -> wpc s' w = WUnsub r -> wpc s w <> WUnsub r -> r <> ROk ->
+  forall strat nconns tgt s l s' w r,
+    step strat nconns tgt s l = Some s' -> wpc s' w = WUnsub r -> wpc s w <> WUnsub r -> r <> ROk ->
     l = LLeave w r.
 Proof. exact wait_error. Qed.
 
-(** PARTIAL (wait_returns): after leaving the loop the caller still has to run the
-    deferred unsubscribe, which needs the pool's write lock; it is enabled iff the
-    lock is free — and the lock is never freed in the deadlocks below. *)
-Theorem C13_wait_return_enabled_partial :
-  forall nconns tgt s w r,
-    wpc s w = WUnsub r -> (step nconns tgt s (LUnsub w) <> None <-> lock_free s = true).
-Proof. exact wait_return_enabled. Qed.
+(** a caller that has left its loop (nil, timeout or cancellation) returns: the
+    current holder of the pool lock finishes by its own moves ([release]), then the
+    deferred unsubscribe runs; its registration is gone *)
+Theorem C13_wait_returns :
+  forall strat nconns tgt heads b s w r,
+    reachable strat nconns tgt (init_state heads b) s -> wpc s w = WUnsub r ->
+    exists s', run strat nconns tgt s (release s ++ [LUnsub w]) = Some s' /\ wpc s' w = WDone r /\
+               (forall e, In e (wl s') -> fst e <> wid s w).
+Proof. exact wait_returns. Qed.
+Print Assumptions C13_wait_returns.
 
-(** ---- the pool lock ---- *)
+(** ---- the pool never blocks ---- *)
 
 Theorem C13_pool_lock_mutex :
-  forall nconns tgt heads b s,
-    reachable nconns tgt (init_state heads b) s ->
+  forall strat nconns tgt heads b s,
+    reachable strat nconns tgt (init_state heads b) s ->
     (writer s <> None -> readers s = 0) /\
     (forall w w', wpc s w = WSubL -> wpc s w' = WSubL -> w = w') /\
-    (forall w k, wpc s w = WSubL -> rpc s <> RUpd k).
+    (forall w, wpc s w = WSubL -> rpc s <> RUpd).
 Proof. exact pool_lock_mutex. Qed.
 
-(** PARTIAL: in every reachable state the holder of the pool lock has an enabled
-    step unless (a) Run, holding the read lock in notifySubscribers, is sending
-    into a full waiter channel, or (b) the write-lock holder (updateBest or
-    subscribe) waits for the lock of a connection that is inside SetMasterHead.
-    Missing: those two classes, in which the statement is false (below). *)
-Theorem C13_pool_never_blocks_partial :
-  forall nconns tgt heads b s,
-    reachable nconns tgt (init_state heads b) s ->
-    ~ notify_blocked s -> ~ connlock_blocked s -> holder_can_step nconns tgt s.
-Proof. exact pool_never_blocks_partial. Qed.
-Print Assumptions C13_pool_never_blocks_partial.
+(** in every reachable state the holder of the pool lock (updateBest, subscribe, or
+    Run inside notifySubscribers) has an enabled step *)
+Theorem C13_pool_never_blocks :
+  forall strat nconns tgt heads b s,
+    reachable strat nconns tgt (init_state heads b) s -> holder_can_step strat nconns tgt s.
+Proof. exact pool_never_blocks. Qed.
+Print Assumptions C13_pool_never_blocks.
 
-(** (a) resolves iff the owner of the full channel is still in its loop;
-    (b) resolves iff the update buffer has room *)
-Theorem C13_notify_blocked_transient :
-  forall nconns tgt s u w rem m,
-    rpc s = RNotify u (w :: rem) -> wch s w = Some m -> wpc s w = WWait ->
-    step nconns tgt s (LRecv w) <> None.
-Proof. exact notify_blocked_transient. Qed.
+(** ... and its own moves free the lock *)
+Theorem C13_lock_released :
+  forall strat nconns tgt heads b s,
+    reachable strat nconns tgt (init_state heads b) s ->
+    exists s', run strat nconns tgt s (release s) = Some s' /\ lock_free s' = true.
+Proof. exact lock_released. Qed.
 
-Theorem C13_connlock_blocked_transient :
-  forall nconns tgt s c h,
-    cpc s c = CPub h -> length (updq s) < upd_cap -> step nconns tgt s (LPublish c) <> None.
-Proof. exact connlock_blocked_transient. Qed.
+(** Run is live: from every reachable state it gets back to its select by moves of
+    the pool's own goroutines only (no new head, no new caller, no timeout needed),
+    leaving the update buffer untouched *)
+Theorem C13_run_is_live :
+  forall strat nconns tgt heads b s,
+    reachable strat nconns tgt (init_state heads b) s ->
+    exists ls s', forallb internal ls = true /\ run strat nconns tgt s ls = Some s' /\ rpc s' = RIdle /\
+                  updq s' = updq s /\ pend s' = pend s.
+Proof. exact run_gets_home. Qed.
 
-(** F14, REFUTED: two head updates while a waiter times out.  From the reached
-    state on, in EVERY continuation, the lock holder (Run) has no enabled step
-    and the timed-out caller never returns. *)
-Theorem C13_pool_never_blocks_refuted :
-  exists nconns tgt heads b s,
-    reachable nconns tgt (init_state heads b) s /\
-    forall s', reachable nconns tgt s s' ->
-      ~ holder_can_step nconns tgt s' /\ wpc s' 0 = WUnsub RTimeout.
-Proof. exact pool_never_blocks_refuted. Qed.
-Print Assumptions C13_pool_never_blocks_refuted.
+(** SetMasterHead holds the connection lock only for a non-blocking critical section
+    (one step of the model, [LSetHead], always enabled) ... *)
+Theorem C13_set_head_enabled :
+  forall strat nconns tgt s c h, step strat nconns tgt s (LSetHead c h) <> None.
+Proof. exact set_head_enabled. Qed.
 
-(** ... and while it lasts nobody can subscribe, unsubscribe, refresh the best
-    connection or consume further head updates *)
-Theorem C13_f14_freezes_pool :
-  forall nconns tgt u w rem r s,
-    f14_dead u w rem r s ->
-    (forall w', step nconns tgt s (LSubLock w') = None) /\
-    (forall w', step nconns tgt s (LUnsub w') = None) /\
-    step nconns tgt s LTick = None /\ step nconns tgt s LTake = None /\
-    step nconns tgt s LSend = None /\ step nconns tgt s LRUnlock = None.
-Proof. exact f14_dead_freezes. Qed.
+(** ... and its send into the update buffer, done after the unlock, completes: at
+    once if the buffer has room, otherwise after Run has taken one update *)
+Theorem C13_publish_completes :
+  forall strat nconns tgt heads b s k m,
+    reachable strat nconns tgt (init_state heads b) s -> nth_error (pend s) k = Some m ->
+    exists ls s', forallb internal ls = true /\
+                  run strat nconns tgt s (ls ++ [LPublish k]) = Some s' /\ In m (updq s').
+Proof. exact publish_completes. Qed.
+Print Assumptions C13_publish_completes.
 
-(** REFUTED, second deadlock: 11 head updates not yet consumed, then the ticker
-    branch: updateBest (write lock) waits for c.mu, SetMasterHead (c.mu) waits for
-    buffer space, only Run frees buffer space. *)
-Theorem C13_pool_never_blocks_refuted_updatebest :
-  exists nconns tgt heads b s,
-    reachable nconns tgt (init_state heads b) s /\
-    forall s', reachable nconns tgt s s' ->
-      ~ holder_can_step nconns tgt s' /\ rpc s' = RUpd 0.
-Proof. exact pool_never_blocks_refuted_updatebest. Qed.
+(** a connection's head never decreases *)
+Theorem C13_head_monotone :
+  forall strat nconns tgt s s' c,
+    reachable strat nconns tgt s s' -> (head s c <= head s' c)%N.
+Proof. exact head_monotone_reachable. Qed.
 
-(** REFUTED, third deadlock: same buffer condition with a subscriber as the
-    write-lock holder and Run waiting for the read lock. *)
-Theorem C13_pool_never_blocks_refuted_subscribe :
-  exists nconns tgt heads b s,
-    reachable nconns tgt (init_state heads b) s /\
-    forall s', reachable nconns tgt s s' ->
-      ~ holder_can_step nconns tgt s' /\ wpc s' 0 = WSubL /\ rpc s' = RWantR (0, 1%N).
-Proof. exact pool_never_blocks_refuted_subscribe. Qed.
+(** in a pool with at least one connection the best connection is always one of the
+    pool's connections and subscribe never dereferences nil *)
+Theorem C13_subscribe_never_panics :
+  forall strat nconns tgt heads b s,
+    b < nconns -> reachable strat nconns tgt (init_state heads (Some b)) s ->
+    (exists b', best s = Some b' /\ b' < nconns) /\ forall w, wpc s w <> WPanicked.
+Proof. exact subscribe_never_panics. Qed.
 
 (** ---- non-vacuity ---- *)
 
 (** three connections: 0 one block behind and slow, 1 dead, 2 current and fast;
-    a fourth two blocks behind.  All premises of the partial theorem hold. *)
+    a fourth two blocks behind; and the former F15 witness *)
 Example C13_selection_example :
   let cs := [mkConn true 99 30; mkConn false 100 1; mkConn true 100 5; mkConn true 98 1] in
-  no_alive_at_wrap cs /\ eligible cs (mkConn true 99 30) /\ ~ eligible cs (mkConn true 98 1) /\
-  update_best BestPing cs None = Some 2 /\ update_best FirstWorking cs None = Some 0.
+  eligible cs (mkConn true 99 30) /\ ~ eligible cs (mkConn true 98 1) /\
+  update_best BestPing cs None = Some 2 /\ update_best FirstWorking cs None = Some 0 /\
+  update_best BestPing [mkConn true 4294967295 1] None = Some 0.
 Proof.
   cbv zeta. split; [|split; [|split; [|split]]].
-  - intros c Hin Ha. cbn [In] in Hin.
-    destruct Hin as [<-|[<-|[<-|[<-|[]]]]]; vm_compute; discriminate.
   - split; [reflexivity|]. vm_compute. discriminate.
   - intros [_ H]. vm_compute in H. apply H. reflexivity.
   - vm_compute. reflexivity.
   - vm_compute. reflexivity.
+  - vm_compute. reflexivity.
 Qed.
 
-(** a complete successful wait: subscribe(10) at head 5, head 12 arrives, Run
-    notifies, the waiter receives 12 and returns nil; the registry is empty again *)
+(** a complete successful wait, and the schedule of the former F14 deadlock
+    running to completion *)
 Example C13_wait_example :
   exists s,
-    run 1 (fun _ => 10%N) (init_state (fun _ => 5%N) (Some 0))
+    run BestPing 1 (fun _ => 10%N) (init_state (fun _ => 5%N) (Some 0))
       [LSubLock 0; LSubBody 0; LSetHead 0 12; LPublish 0; LTake; LRLock [0]; LSend; LRUnlock;
        LRecv 0; LUnsub 0] = Some s /\
     wpc s 0 = WDone ROk /\ wgot s 0 = Some (0, 12%N) /\ wl s = [] /\ readers s = 0 /\ writer s = None.
-Proof. eexists. split; [vm_compute; reflexivity|]. repeat apply conj; reflexivity. Qed.
+Proof. exact wait_example. Qed.
+
+Example C13_f14_schedule_completes :
+  exists s, run BestPing 1 w_tgt (init_state (fun _ => 5%N) (Some 0)) f14_trace = Some s /\
+    wpc s 0 = WDone RTimeout /\ wch s 0 = Some (0, 7%N) /\ wl s = [] /\
+    readers s = 0 /\ writer s = None /\ rpc s = RIdle.
+Proof. exact f14_trace_completes. Qed.
